@@ -12,15 +12,17 @@ LEX = {'base64': r'(([A-Za-z0-9+/]{4})*([A-Za-z0-9+/]{3}=|[A-Za-z0-9+/]{2}[AEIMQ
        'hex': r'([0-9a-fA-F]{2})*',
        'urlsafe_base64': r'(([A-Za-z0-9_-]{4})*([A-Za-z0-9_-]{3}=|[A-Za-z0-9_-]{2}==)?)'}
 SHAPES = [(1,), (2,), (3,), (4,), (1, 1), (1, 2), (2, 2), (3, 1), (1, 1, 1)]
+DEEP_SHAPES = SHAPES + [(5,), (6,), (3, 3), (2, 2, 2), (4, 1), (1, 4), (2, 3)]
 
 
-@harness('C08', params=[(e, s) for e in sorted(TYPES) for s in SHAPES], label=lambda p: '%s chunks=%s' % p,
+@harness('C08', tier_params={'quick': [(e, s) for e in sorted(TYPES) for s in SHAPES],
+                             'thorough': [(e, s) for e in sorted(TYPES) for s in DEEP_SHAPES]}, label=lambda p: '%s chunks=%s' % p,
          functions=['spyne.protocol._outbase.OutProtocolBase.byte_array_to_unicode',
                     'spyne.protocol._inbase.InProtocolBase.byte_array_from_bytes',
                     'spyne.model.binary.ByteArray.to_base64', 'spyne.model.binary.ByteArray.from_base64',
                     'spyne.model.binary.ByteArray.to_hex', 'spyne.model.binary.ByteArray.from_hex',
                     'spyne.model.binary.ByteArray.to_urlsafe_base64', 'spyne.model.binary.ByteArray.from_urlsafe_base64'],
-         bounds={'value': 'every byte string of up to 4 bytes, given as 1..3 chunks (every chunking listed), all bytes symbolic',
+         bounds={'value': 'every byte string of up to 4 bytes (thorough: 6), given as 1..3 chunks (every chunking listed), all bytes symbolic',
                  'model': 'base64 / hex coding itself is modelled (binascii is C); validated on every witness'})
 def bytearray_roundtrip(sx, p):
     """the text written for a ByteArray value is a literal of the advertised type and reads back as the same
